@@ -98,7 +98,7 @@ def build(sk):
         for i, ch in enumerate(w):
             name, cat, cls = KCLASS[ch]
             ts, dur = f"$r{r}_k{i}_ts", f"$r{r}_k{i}_dur"
-            ev.append(TG.kernel(name, ts, dur, stream=7 + 13 * (i % 2), corr=100 + i, cat=cat))
+            ev.append(TG.kernel(name, ts, dur, stream=(0 if (sk.get('params', {}).get('stream0') and i == 0) else 7 + 13 * (i % 2)), corr=100 + i, cat=cat))
             ks.append((cls, name, ts, dur))
         ranks[int(r)] = ev
         kinfo[int(r)] = ks
